@@ -724,6 +724,7 @@ result_t DirectProtocolHandler::setState(BusState state, result_t result, bool f
         m_finishedRequests.push(m_currentRequest);
       }
     }
+    m_device->startArbitration(SYN);  // reset arbitration state: no request is pending any more
   }
 
   m_escape = 0;
